@@ -33,6 +33,8 @@ ASSUMPTIONS = [
     "features: ENU polylines with 2..5 vertices in [0,16]^2 (quarter lattice, integer lattice, floats), at least "
     "0.25 of extent on each axis; zero-length segments allowed; networks built with Node/Edge/addEdge exactly as "
     "NetworkReader does (edge geometry runs source->target, weight = 2D length; nodes are shared by position)",
+    "with plan 'incremental' the queries of the case are asked once, unjudged, before the late edges are added (query, extend, "
+    "query again on the same index object)",
     "features may arrive in two stages (case fields late = 1..2 trailing features, plan): 'incremental' (network) = index on "
     "the first ones, the others enter that index through addEdge (demanded only if they lie inside its extent); 'reindex' = "
     "index on the first ones, the others are added (addEdge / addTrack), the index is created again; 'bbox-first' = bbox() of "
@@ -385,6 +387,20 @@ def _build(case):
         else:
             guarded(lambda: net.createSpatialIndex(res, margin, False), polys[:nf - late])
         si = net.spatial_index
+        if plan == "incremental" and si is not None and case.get("early", True):
+            # the queries of the case are also asked BEFORE the late edges arrive (unjudged: an index that is queried, then
+            # extended with addEdge, then queried again is the ordinary life of an incrementally built network); an answer
+            # remembered from this first round must not survive the arrival of new features
+            for (x, y, d) in case.get("nbh", []):
+                try:
+                    si.neighborhood(ENUCoords(x, y, 0.0), unit=si.groundDistanceToUnits(d))
+                except Exception:
+                    pass
+            for q in case.get("pts", []):
+                try:
+                    si.request(ENUCoords(q[0], q[1], 0.0))
+                except Exception:
+                    pass
         for k in range(nf - late, nf):
             try:
                 add(k)
